@@ -369,6 +369,7 @@ def suites(tier, seed):
 NATIVE = r'''
 // native replay against libsodium driven from the same state: the stream state is set through the raw 44 state bytes
 use dryoc::classic::crypto_secretstream_xchacha20poly1305::*;
+extern crate libsodium_sys;   // links libsodium
 extern "C" {
     fn crypto_secretstream_xchacha20poly1305_push(state: *mut u8, c: *mut u8, clen: *mut u64, m: *const u8, mlen: u64, ad: *const u8, adlen: u64, tag: u8) -> i32;
     fn crypto_secretstream_xchacha20poly1305_pull(state: *mut u8, m: *mut u8, mlen: *mut u64, tag: *mut u8, c: *const u8, clen: u64, ad: *const u8, adlen: u64) -> i32;
